@@ -153,6 +153,23 @@ pub fn sites(tier: Tier) -> Vec<Site> {
                 SLOTS[slot()].store(u64::MAX, AO::Relaxed);
             }));
     }
+    // revisions (and whole numbers) either side of every power of two a machine word may end at
+    {
+        let mut nums: Vec<u128> = vec![];
+        for k in [8u32, 16, 31, 32, 53, 63, 64, 65, 127] { for d in 0..=8u128 { nums.push((1u128 << k) - 4 + d); } }
+        for d in 0..=30u128 { nums.push(u64::MAX as u128 - 12 + d); }
+        nums.sort(); nums.dedup();
+        let forms = ["0.7F{}", "0.7f00{}", "0.7{}", "{}.5A", "0.{}Z9", "1A{}"];
+        let n = (nums.len() * forms.len()) as u64;
+        let nums = Arc::new(nums);
+        sites.push(Site::new("boundary-numbers", n,
+            "every n within 4 of 2^8, 2^16, 2^31, 2^32, 2^53, 2^63, 2^64, 2^65, 2^127 (and usize::MAX - 12 ..= usize::MAX + 18) as the revision (with and without leading zeros), as the whole number, as the fraction: no panic; parse, print, re-parse",
+            move |i, acc| {
+                let v = nums[(i as usize) / forms.len()];
+                let s = forms[(i as usize) % forms.len()].replace("{}", &v.to_string());
+                let _ = check_string(&s, i, "boundary-numbers", acc);
+            }));
+    }
     // every Unicode scalar value where a digit, a letter or nothing is expected: total, and what parses prints and re-parses
     sites.push(Site::new("any-scalar-value", 0x11_0000 * 4,
         "every Unicode scalar value c (all 1 112 064) in the texts 0.7c, c.7F, 0.7Fc, 0.c5F: no panic; parse, print, re-parse",
